@@ -20,6 +20,7 @@
  *   ops   C        create the client session (starts the handshake)
  *         qc<k> qn<k>   client sends Confirmable / Non-confirmable request number k (POST /secretpath)
  *         ns<k>    set NSTART of the client session
+ *         mh<k>    server: coap_context_set_max_handshake_sessions(k)
  *         d x u o  deliver / drop / deliver twice / postpone the oldest pending datagram
  *         a        deliver pending datagrams in order until none is pending
  *         t<ms>    advance the (one) clock by ms and let both contexts fire their timers
@@ -111,6 +112,11 @@ static void free_table(table_t *t) {
 
 static const coap_dtls_cpsk_info_t *cb_ih(coap_str_const_t *hint, coap_session_t *s, void *arg) {
   (void)s; (void)arg;
+  {
+    char hh[600];
+    tg_hex(hh, sizeof(hh), hint->s, hint->length);
+    tg_emit("c.ih:%s", hh);
+  }
   for (int i = 0; i < t_cih.n; i++)
     if (t_cih.rows[i].al == hint->length && memcmp(t_cih.rows[i].a, hint->s, hint->length) == 0) {
       cb_cinfo.identity.s = t_cih.rows[i].b;
@@ -483,6 +489,8 @@ static void run_case(void) {
         tg_emit("a.q:%d:%c%d:%d", k, op[1] == 'c' ? 'C' : 'N', (int)g_req[k].mid, (int)m);
       } else
         tg_emit("a.q:%d:skip", k);
+    } else if (op[0] == 'm' && op[1] == 'h') {
+      coap_context_set_max_handshake_sessions(g_srv, (unsigned)atoi(op + 2));
     } else if (op[0] == 'n' && op[1] == 's') {
       if (g_cs) coap_session_set_nstart(g_cs, (uint16_t)atoi(op + 2));
     } else if (strcmp(op, "d") == 0 || strcmp(op, "u") == 0) {
